@@ -544,6 +544,9 @@ class ExprMixin:
             self.ctx.guards.pop()
             self.ctx.spec_mode -= 1
             self.frame.env = saved
+        if type(v).__name__ == "SArr":
+            from .arrays import seq_from_elements
+            return seq_from_elements(it.len, j, v)
         ety = type_of(v, self.reg)
         if ety is None:
             raise Unsupported("comprehension element type")
